@@ -1,5 +1,5 @@
 \* emits the verdict table of OutcomeOK (no state exploration)
 SPECIFICATION JudgeSpec
 CONSTANTS
-  Configs <- IntendedConfigs
+  Configs <- CurrentConfigs
   PreStates = {"absent"}
